@@ -15,6 +15,16 @@ let option_map f = function
 | Some a -> Some (f a)
 | None -> None
 
+(** val fst : ('a1 * 'a2) -> 'a1 **)
+
+let fst = function
+| (x, _) -> x
+
+(** val snd : ('a1 * 'a2) -> 'a2 **)
+
+let snd = function
+| (_, y) -> y
+
 (** val length : 'a1 list -> nat **)
 
 let rec length = function
@@ -50,6 +60,11 @@ let rec sub n0 m =
   | S k -> (match m with
             | O -> n0
             | S l -> sub k l)
+
+(** val eqb : bool -> bool -> bool **)
+
+let eqb b1 b2 =
+  if b1 then b2 else if b2 then false else true
 
 module Nat =
  struct
@@ -100,6 +115,33 @@ let rec nth_error l = function
            | [] -> None
            | _ :: l0 -> nth_error l0 n1)
 
+(** val last : 'a1 list -> 'a1 -> 'a1 **)
+
+let rec last l d =
+  match l with
+  | [] -> d
+  | a :: l0 -> (match l0 with
+                | [] -> a
+                | _ :: _ -> last l0 d)
+
+(** val map : ('a1 -> 'a2) -> 'a1 list -> 'a2 list **)
+
+let rec map f = function
+| [] -> []
+| a :: t -> (f a) :: (map f t)
+
+(** val flat_map : ('a1 -> 'a2 list) -> 'a1 list -> 'a2 list **)
+
+let rec flat_map f = function
+| [] -> []
+| x :: t -> app (f x) (flat_map f t)
+
+(** val fold_right : ('a2 -> 'a1 -> 'a1) -> 'a1 -> 'a2 list -> 'a1 **)
+
+let rec fold_right f a0 = function
+| [] -> a0
+| b :: t -> f b (fold_right f a0 t)
+
 (** val firstn : nat -> 'a1 list -> 'a1 list **)
 
 let rec firstn n0 l =
@@ -117,6 +159,12 @@ let rec skipn n0 l =
   | S n1 -> (match l with
              | [] -> []
              | _ :: l0 -> skipn n1 l0)
+
+(** val repeat : 'a1 -> nat -> 'a1 list **)
+
+let rec repeat x = function
+| O -> []
+| S k -> x :: (repeat x k)
 
 type positive =
 | XI of positive
@@ -296,10 +344,10 @@ module Coq_Pos =
 
   (** val iter_op : ('a1 -> 'a1 -> 'a1) -> positive -> 'a1 -> 'a1 **)
 
-  let rec iter_op op0 p a =
+  let rec iter_op op1 p a =
     match p with
-    | XI p0 -> op0 a (iter_op op0 p0 (op0 a a))
-    | XO p0 -> iter_op op0 p0 (op0 a a)
+    | XI p0 -> op1 a (iter_op op1 p0 (op1 a a))
+    | XO p0 -> iter_op op1 p0 (op1 a a)
     | XH -> a
 
   (** val to_nat : positive -> nat **)
@@ -395,6 +443,13 @@ module N =
     | Lt -> true
     | _ -> false
 
+  (** val max : n -> n -> n **)
+
+  let max n0 n' =
+    match compare n0 n' with
+    | Gt -> n0
+    | _ -> n'
+
   (** val pos_div_eucl : positive -> n -> n * n **)
 
   let rec pos_div_eucl a b =
@@ -464,6 +519,15 @@ let rec upd l i a =
   | h :: t -> (match i with
                | O -> a :: t
                | S j -> h :: (upd t j a))
+
+(** val u64_max : n **)
+
+let u64_max =
+  Npos (XI (XI (XI (XI (XI (XI (XI (XI (XI (XI (XI (XI (XI (XI (XI (XI (XI
+    (XI (XI (XI (XI (XI (XI (XI (XI (XI (XI (XI (XI (XI (XI (XI (XI (XI (XI
+    (XI (XI (XI (XI (XI (XI (XI (XI (XI (XI (XI (XI (XI (XI (XI (XI (XI (XI
+    (XI (XI (XI (XI (XI (XI (XI (XI (XI (XI
+    XH)))))))))))))))))))))))))))))))))))))))))))))))))))))))))))))))
 
 (** val enc_opt : n option -> n list **)
 
@@ -768,3 +832,1088 @@ let run_inflights = function
        (XI (XO (XI XH)))))))))))))))))))) :: []
    | c :: ops ->
      run_ops (N.eqb mode (Npos XH)) (new0 (N.to_nat c)) (decode_ops ops))
+
+type entry = { e_term : n; e_index : n; e_type : n; e_data : n list;
+               e_context : n list; e_sync_log : bool }
+
+(** val varint_len : n -> n **)
+
+let varint_len v =
+  if N.ltb v (Npos (XO (XO (XO (XO (XO (XO (XO XH))))))))
+  then Npos XH
+  else if N.ltb v (Npos (XO (XO (XO (XO (XO (XO (XO (XO (XO (XO (XO (XO (XO
+            (XO XH)))))))))))))))
+       then Npos (XO XH)
+       else if N.ltb v (Npos (XO (XO (XO (XO (XO (XO (XO (XO (XO (XO (XO (XO
+                 (XO (XO (XO (XO (XO (XO (XO (XO (XO XH))))))))))))))))))))))
+            then Npos (XI XH)
+            else if N.ltb v (Npos (XO (XO (XO (XO (XO (XO (XO (XO (XO (XO (XO
+                      (XO (XO (XO (XO (XO (XO (XO (XO (XO (XO (XO (XO (XO (XO
+                      (XO (XO (XO XH)))))))))))))))))))))))))))))
+                 then Npos (XO (XO XH))
+                 else if N.ltb v (Npos (XO (XO (XO (XO (XO (XO (XO (XO (XO
+                           (XO (XO (XO (XO (XO (XO (XO (XO (XO (XO (XO (XO
+                           (XO (XO (XO (XO (XO (XO (XO (XO (XO (XO (XO (XO
+                           (XO (XO XH))))))))))))))))))))))))))))))))))))
+                      then Npos (XI (XO XH))
+                      else if N.ltb v (Npos (XO (XO (XO (XO (XO (XO (XO (XO
+                                (XO (XO (XO (XO (XO (XO (XO (XO (XO (XO (XO
+                                (XO (XO (XO (XO (XO (XO (XO (XO (XO (XO (XO
+                                (XO (XO (XO (XO (XO (XO (XO (XO (XO (XO (XO
+                                (XO
+                                XH)))))))))))))))))))))))))))))))))))))))))))
+                           then Npos (XO (XI XH))
+                           else if N.ltb v (Npos (XO (XO (XO (XO (XO (XO (XO
+                                     (XO (XO (XO (XO (XO (XO (XO (XO (XO (XO
+                                     (XO (XO (XO (XO (XO (XO (XO (XO (XO (XO
+                                     (XO (XO (XO (XO (XO (XO (XO (XO (XO (XO
+                                     (XO (XO (XO (XO (XO (XO (XO (XO (XO (XO
+                                     (XO (XO
+                                     XH))))))))))))))))))))))))))))))))))))))))))))))))))
+                                then Npos (XI (XI XH))
+                                else if N.ltb v (Npos (XO (XO (XO (XO (XO (XO
+                                          (XO (XO (XO (XO (XO (XO (XO (XO (XO
+                                          (XO (XO (XO (XO (XO (XO (XO (XO (XO
+                                          (XO (XO (XO (XO (XO (XO (XO (XO (XO
+                                          (XO (XO (XO (XO (XO (XO (XO (XO (XO
+                                          (XO (XO (XO (XO (XO (XO (XO (XO (XO
+                                          (XO (XO (XO (XO (XO
+                                          XH)))))))))))))))))))))))))))))))))))))))))))))))))))))))))
+                                     then Npos (XO (XO (XO XH)))
+                                     else if N.ltb v (Npos (XO (XO (XO (XO
+                                               (XO (XO (XO (XO (XO (XO (XO
+                                               (XO (XO (XO (XO (XO (XO (XO
+                                               (XO (XO (XO (XO (XO (XO (XO
+                                               (XO (XO (XO (XO (XO (XO (XO
+                                               (XO (XO (XO (XO (XO (XO (XO
+                                               (XO (XO (XO (XO (XO (XO (XO
+                                               (XO (XO (XO (XO (XO (XO (XO
+                                               (XO (XO (XO (XO (XO (XO (XO
+                                               (XO (XO (XO
+                                               XH))))))))))))))))))))))))))))))))))))))))))))))))))))))))))))))))
+                                          then Npos (XI (XO (XO XH)))
+                                          else Npos (XO (XI (XO XH)))
+
+(** val varint_field_size : n -> n **)
+
+let varint_field_size v =
+  if N.eqb v N0 then N0 else N.add (Npos XH) (varint_len v)
+
+(** val bytes_field_size : n list -> n **)
+
+let bytes_field_size b = match b with
+| [] -> N0
+| _ :: _ ->
+  N.add (N.add (Npos XH) (varint_len (N.of_nat (length b))))
+    (N.of_nat (length b))
+
+(** val entry_size : entry -> n **)
+
+let entry_size e =
+  N.add
+    (N.add
+      (N.add
+        (N.add
+          (N.add (varint_field_size e.e_type) (varint_field_size e.e_term))
+          (varint_field_size e.e_index)) (bytes_field_size e.e_data))
+      (bytes_field_size e.e_context))
+    (if e.e_sync_log then Npos (XO XH) else N0)
+
+(** val nO_LIMIT : n **)
+
+let nO_LIMIT =
+  u64_max
+
+(** val limit_count : ('a1 -> n) -> 'a1 list -> n -> n -> nat **)
+
+let rec limit_count sz l size max0 =
+  match l with
+  | [] -> O
+  | e :: t ->
+    let size' = N.add size (sz e) in
+    if N.eqb size N0
+    then S (limit_count sz t size' max0)
+    else if N.leb size' max0 then S (limit_count sz t size' max0) else O
+
+(** val limit_size_by : ('a1 -> n) -> 'a1 list -> n option -> 'a1 list **)
+
+let limit_size_by sz l max0 =
+  if Nat.leb (length l) (S O)
+  then l
+  else (match max0 with
+        | Some m ->
+          if N.eqb m nO_LIMIT then l else firstn (limit_count sz l N0 m) l
+        | None -> l)
+
+(** val limit_size : entry list -> n option -> entry list **)
+
+let limit_size =
+  limit_size_by entry_size
+
+type hard_state = { hs_term : n; hs_vote : n; hs_commit : n }
+
+type conf_state = { cs_voters : n list; cs_learners : n list;
+                    cs_voters_outgoing : n list; cs_learners_next : n list;
+                    cs_auto_leave : bool }
+
+(** val hs_default : hard_state **)
+
+let hs_default =
+  { hs_term = N0; hs_vote = N0; hs_commit = N0 }
+
+(** val cs_default : conf_state **)
+
+let cs_default =
+  { cs_voters = []; cs_learners = []; cs_voters_outgoing = [];
+    cs_learners_next = []; cs_auto_leave = false }
+
+(** val list_eqb : n list -> n list -> bool **)
+
+let rec list_eqb a b =
+  match a with
+  | [] -> (match b with
+           | [] -> true
+           | _ :: _ -> false)
+  | x :: a' ->
+    (match b with
+     | [] -> false
+     | y :: b' -> (&&) (N.eqb x y) (list_eqb a' b'))
+
+(** val cs_eqb : conf_state -> conf_state -> bool **)
+
+let cs_eqb a b =
+  (&&)
+    ((&&)
+      ((&&)
+        ((&&) (list_eqb a.cs_voters b.cs_voters)
+          (list_eqb a.cs_learners b.cs_learners))
+        (list_eqb a.cs_voters_outgoing b.cs_voters_outgoing))
+      (list_eqb a.cs_learners_next b.cs_learners_next))
+    (eqb a.cs_auto_leave b.cs_auto_leave)
+
+type snapshot = { s_index : n; s_term : n; s_cs : conf_state }
+
+type gectx =
+| CtxSendAppend of n * n * bool
+| CtxGenReady
+| CtxTransferLeader
+| CtxCommitByVote
+| CtxEmpty of bool
+
+(** val can_async : gectx -> bool **)
+
+let can_async = function
+| CtxSendAppend (_, _, _) -> true
+| CtxEmpty b -> b
+| _ -> false
+
+type serr =
+| Compacted
+| Unavailable
+| SnapshotOutOfDate
+| SnapshotTemporarilyUnavailable
+| LogTemporarilyUnavailable
+
+(** val serr_code : serr -> n **)
+
+let serr_code = function
+| Compacted -> Npos XH
+| Unavailable -> Npos (XO XH)
+| SnapshotOutOfDate -> Npos (XI XH)
+| SnapshotTemporarilyUnavailable -> Npos (XO (XO XH))
+| LogTemporarilyUnavailable -> Npos (XI (XO XH))
+
+type 'a sres =
+| SOk of 'a
+| SErr of serr
+
+type mem = { hs : hard_state; cs : conf_state; entries : entry list;
+             snap_index : n; snap_term : n; trig_snap : bool;
+             trig_log : bool; ge_ctx : gectx option }
+
+(** val set_hs : mem -> hard_state -> mem **)
+
+let set_hs m h =
+  { hs = h; cs = m.cs; entries = m.entries; snap_index = m.snap_index;
+    snap_term = m.snap_term; trig_snap = m.trig_snap; trig_log = m.trig_log;
+    ge_ctx = m.ge_ctx }
+
+(** val set_cs : mem -> conf_state -> mem **)
+
+let set_cs m c =
+  { hs = m.hs; cs = c; entries = m.entries; snap_index = m.snap_index;
+    snap_term = m.snap_term; trig_snap = m.trig_snap; trig_log = m.trig_log;
+    ge_ctx = m.ge_ctx }
+
+(** val set_entries : mem -> entry list -> mem **)
+
+let set_entries m l =
+  { hs = m.hs; cs = m.cs; entries = l; snap_index = m.snap_index; snap_term =
+    m.snap_term; trig_snap = m.trig_snap; trig_log = m.trig_log; ge_ctx =
+    m.ge_ctx }
+
+(** val set_trig_snap : mem -> bool -> mem **)
+
+let set_trig_snap m b =
+  { hs = m.hs; cs = m.cs; entries = m.entries; snap_index = m.snap_index;
+    snap_term = m.snap_term; trig_snap = b; trig_log = m.trig_log; ge_ctx =
+    m.ge_ctx }
+
+(** val set_trig_log : mem -> bool -> mem **)
+
+let set_trig_log m b =
+  { hs = m.hs; cs = m.cs; entries = m.entries; snap_index = m.snap_index;
+    snap_term = m.snap_term; trig_snap = m.trig_snap; trig_log = b; ge_ctx =
+    m.ge_ctx }
+
+(** val set_ge_ctx : mem -> gectx option -> mem **)
+
+let set_ge_ctx m c =
+  { hs = m.hs; cs = m.cs; entries = m.entries; snap_index = m.snap_index;
+    snap_term = m.snap_term; trig_snap = m.trig_snap; trig_log = m.trig_log;
+    ge_ctx = c }
+
+(** val site_first_overflow : site **)
+
+let site_first_overflow =
+  Npos (XI (XO (XI (XI (XO (XI (XI (XO (XI (XI XH))))))))))
+
+(** val site_commit_to_assert : site **)
+
+let site_commit_to_assert =
+  Npos (XO (XI (XI (XI (XO (XI (XI (XO (XI (XI XH))))))))))
+
+(** val site_commit_to_index : site **)
+
+let site_commit_to_index =
+  Npos (XI (XI (XI (XI (XO (XI (XI (XO (XI (XI XH))))))))))
+
+(** val site_snapshot_entries0 : site **)
+
+let site_snapshot_entries0 =
+  Npos (XO (XO (XO (XO (XI (XI (XI (XO (XI (XI XH))))))))))
+
+(** val site_snapshot_underflow : site **)
+
+let site_snapshot_underflow =
+  Npos (XI (XO (XO (XO (XI (XI (XI (XO (XI (XI XH))))))))))
+
+(** val site_snapshot_index : site **)
+
+let site_snapshot_index =
+  Npos (XO (XI (XO (XO (XI (XI (XI (XO (XI (XI XH))))))))))
+
+(** val site_snapshot_commit_lt : site **)
+
+let site_snapshot_commit_lt =
+  Npos (XI (XI (XO (XO (XI (XI (XI (XO (XI (XI XH))))))))))
+
+(** val site_compact_last_overflow : site **)
+
+let site_compact_last_overflow =
+  Npos (XO (XO (XI (XO (XI (XI (XI (XO (XI (XI XH))))))))))
+
+(** val site_compact_oob : site **)
+
+let site_compact_oob =
+  Npos (XI (XO (XI (XO (XI (XI (XI (XO (XI (XI XH))))))))))
+
+(** val site_compact_drain : site **)
+
+let site_compact_drain =
+  Npos (XO (XI (XI (XO (XI (XI (XI (XO (XI (XI XH))))))))))
+
+(** val site_append_compacted : site **)
+
+let site_append_compacted =
+  Npos (XI (XI (XI (XO (XI (XI (XI (XO (XI (XI XH))))))))))
+
+(** val site_append_last_overflow : site **)
+
+let site_append_last_overflow =
+  Npos (XO (XO (XO (XI (XI (XI (XI (XO (XI (XI XH))))))))))
+
+(** val site_append_gap : site **)
+
+let site_append_gap =
+  Npos (XI (XO (XO (XI (XI (XI (XI (XO (XI (XI XH))))))))))
+
+(** val site_append_drain : site **)
+
+let site_append_drain =
+  Npos (XO (XI (XO (XI (XI (XI (XI (XO (XI (XI XH))))))))))
+
+(** val site_entries_last_overflow : site **)
+
+let site_entries_last_overflow =
+  Npos (XI (XI (XO (XI (XI (XI (XI (XO (XI (XI XH))))))))))
+
+(** val site_entries_oob : site **)
+
+let site_entries_oob =
+  Npos (XO (XO (XI (XI (XI (XI (XI (XO (XI (XI XH))))))))))
+
+(** val site_entries_entries0 : site **)
+
+let site_entries_entries0 =
+  Npos (XI (XO (XI (XI (XI (XI (XI (XO (XI (XI XH))))))))))
+
+(** val site_entries_hi_underflow : site **)
+
+let site_entries_hi_underflow =
+  Npos (XO (XI (XI (XI (XI (XI (XI (XO (XI (XI XH))))))))))
+
+(** val site_entries_slice_order : site **)
+
+let site_entries_slice_order =
+  Npos (XI (XI (XI (XI (XI (XI (XI (XO (XI (XI XH))))))))))
+
+(** val site_entries_slice_end : site **)
+
+let site_entries_slice_end =
+  Npos (XO (XO (XO (XO (XO (XO (XO (XI (XI (XI XH))))))))))
+
+(** val site_term_index : site **)
+
+let site_term_index =
+  Npos (XI (XO (XO (XO (XO (XO (XO (XI (XI (XI XH))))))))))
+
+(** val site_init_assert : site **)
+
+let site_init_assert =
+  Npos (XO (XI (XO (XO (XO (XO (XO (XI (XI (XI XH))))))))))
+
+(** val new1 : mem **)
+
+let new1 =
+  { hs = hs_default; cs = cs_default; entries = []; snap_index = N0;
+    snap_term = N0; trig_snap = false; trig_log = false; ge_ctx = None }
+
+(** val initialized : mem -> bool **)
+
+let initialized m =
+  negb (cs_eqb m.cs cs_default)
+
+(** val cs_from : n list -> n list -> conf_state **)
+
+let cs_from voters learners =
+  { cs_voters = voters; cs_learners = learners; cs_voters_outgoing = [];
+    cs_learners_next = []; cs_auto_leave = false }
+
+(** val initialize_with_conf_state : mem -> conf_state -> mem res **)
+
+let initialize_with_conf_state m c =
+  if initialized m then Panic site_init_assert else Ok (set_cs m c)
+
+(** val new_with_conf_state : conf_state -> mem res **)
+
+let new_with_conf_state c =
+  initialize_with_conf_state new1 c
+
+(** val set_hardstate : mem -> hard_state -> mem **)
+
+let set_hardstate =
+  set_hs
+
+(** val hard_state_of : mem -> hard_state **)
+
+let hard_state_of m =
+  m.hs
+
+(** val set_commit : mem -> n -> mem **)
+
+let set_commit m c =
+  set_hs m { hs_term = m.hs.hs_term; hs_vote = m.hs.hs_vote; hs_commit = c }
+
+(** val set_conf_state : mem -> conf_state -> mem **)
+
+let set_conf_state =
+  set_cs
+
+(** val first_index : mem -> n res **)
+
+let first_index m =
+  match m.entries with
+  | [] ->
+    if N.eqb m.snap_index u64_max
+    then Panic site_first_overflow
+    else Ok (N.add m.snap_index (Npos XH))
+  | e :: _ -> Ok e.e_index
+
+(** val last_index : mem -> n **)
+
+let last_index m =
+  last (map (fun e -> e.e_index) m.entries) m.snap_index
+
+(** val has_entry_at : mem -> n -> bool **)
+
+let has_entry_at m i =
+  match m.entries with
+  | [] -> false
+  | e0 :: _ -> (&&) (N.leb e0.e_index i) (N.leb i (last_index m))
+
+(** val commit_to : mem -> n -> mem res **)
+
+let commit_to m i =
+  if negb (has_entry_at m i)
+  then Panic site_commit_to_assert
+  else (match m.entries with
+        | [] -> Panic site_commit_to_assert
+        | e0 :: _ ->
+          bind
+            (idx m.entries (N.to_nat (N.sub i e0.e_index))
+              site_commit_to_index) (fun e -> Ok
+            (set_hs m { hs_term = e.e_term; hs_vote = m.hs.hs_vote;
+              hs_commit = i })))
+
+(** val apply_snapshot : mem -> snapshot -> (mem * unit sres) res **)
+
+let apply_snapshot m s =
+  bind (first_index m) (fun f ->
+    if N.ltb s.s_index f
+    then Ok (m, (SErr SnapshotOutOfDate))
+    else Ok ({ hs = { hs_term = (N.max m.hs.hs_term s.s_term); hs_vote =
+           m.hs.hs_vote; hs_commit = s.s_index }; cs = s.s_cs; entries = [];
+           snap_index = s.s_index; snap_term = s.s_term; trig_snap =
+           m.trig_snap; trig_log = m.trig_log; ge_ctx = m.ge_ctx }, (SOk ())))
+
+(** val make_snapshot : mem -> snapshot res **)
+
+let make_snapshot m =
+  let c = m.hs.hs_commit in
+  bind
+    (match N.compare c m.snap_index with
+     | Eq -> Ok m.snap_term
+     | Lt -> Panic site_snapshot_commit_lt
+     | Gt ->
+       (match m.entries with
+        | [] -> Panic site_snapshot_entries0
+        | e0 :: _ ->
+          if N.ltb c e0.e_index
+          then Panic site_snapshot_underflow
+          else bind
+                 (idx m.entries (N.to_nat (N.sub c e0.e_index))
+                   site_snapshot_index) (fun e -> Ok e.e_term))) (fun t -> Ok
+    { s_index = c; s_term = t; s_cs = m.cs })
+
+(** val compact : mem -> n -> mem res **)
+
+let compact m ci =
+  bind (first_index m) (fun f ->
+    if N.leb ci f
+    then Ok m
+    else if N.eqb (last_index m) u64_max
+         then Panic site_compact_last_overflow
+         else if N.ltb (N.add (last_index m) (Npos XH)) ci
+              then Panic site_compact_oob
+              else (match m.entries with
+                    | [] -> Ok m
+                    | e0 :: _ ->
+                      let offset = N.to_nat (N.sub ci e0.e_index) in
+                      if Nat.ltb (length m.entries) offset
+                      then Panic site_compact_drain
+                      else Ok (set_entries m (skipn offset m.entries))))
+
+(** val append : mem -> entry list -> mem res **)
+
+let append m ents = match ents with
+| [] -> Ok m
+| n0 :: _ ->
+  bind (first_index m) (fun f ->
+    if N.ltb n0.e_index f
+    then Panic site_append_compacted
+    else if N.eqb (last_index m) u64_max
+         then Panic site_append_last_overflow
+         else if N.ltb (N.add (last_index m) (Npos XH)) n0.e_index
+              then Panic site_append_gap
+              else let diff = N.to_nat (N.sub n0.e_index f) in
+                   if Nat.ltb (length m.entries) diff
+                   then Panic site_append_drain
+                   else Ok (set_entries m (app (firstn diff m.entries) ents)))
+
+(** val commit_to_and_set_conf_states :
+    mem -> n -> conf_state option -> mem res **)
+
+let commit_to_and_set_conf_states m i c =
+  bind (commit_to m i) (fun m1 ->
+    match c with
+    | Some c0 -> Ok (set_cs m1 c0)
+    | None -> Ok m1)
+
+(** val trigger_snap_unavailable : mem -> mem **)
+
+let trigger_snap_unavailable m =
+  set_trig_snap m true
+
+(** val trigger_log_unavailable : mem -> bool -> mem **)
+
+let trigger_log_unavailable =
+  set_trig_log
+
+(** val take_get_entries_context : mem -> mem * gectx option **)
+
+let take_get_entries_context m =
+  ((set_ge_ctx m None), m.ge_ctx)
+
+(** val initial_state : mem -> hard_state * conf_state **)
+
+let initial_state m =
+  (m.hs, m.cs)
+
+(** val storage_entries :
+    mem -> n -> n -> n option -> gectx -> (mem * entry list sres) res **)
+
+let storage_entries m low high max0 ctx =
+  bind (first_index m) (fun f ->
+    if N.ltb low f
+    then Ok (m, (SErr Compacted))
+    else if N.eqb (last_index m) u64_max
+         then Panic site_entries_last_overflow
+         else if N.ltb (N.add (last_index m) (Npos XH)) high
+              then Panic site_entries_oob
+              else if (&&) m.trig_log (can_async ctx)
+                   then Ok ((set_ge_ctx m (Some ctx)), (SErr
+                          LogTemporarilyUnavailable))
+                   else (match m.entries with
+                         | [] -> Panic site_entries_entries0
+                         | e0 :: _ ->
+                           let offset = e0.e_index in
+                           if N.ltb high offset
+                           then Panic site_entries_hi_underflow
+                           else let lo = N.to_nat (N.sub low offset) in
+                                let hi = N.to_nat (N.sub high offset) in
+                                if Nat.ltb hi lo
+                                then Panic site_entries_slice_order
+                                else if Nat.ltb (length m.entries) hi
+                                     then Panic site_entries_slice_end
+                                     else Ok (m, (SOk
+                                            (limit_size
+                                              (firstn (sub hi lo)
+                                                (skipn lo m.entries)) max0)))))
+
+(** val storage_term : mem -> n -> n sres res **)
+
+let storage_term m i =
+  if N.eqb i m.snap_index
+  then Ok (SOk m.snap_term)
+  else bind (first_index m) (fun f ->
+         if N.ltb i f
+         then Ok (SErr Compacted)
+         else if N.ltb (last_index m) i
+              then Ok (SErr Unavailable)
+              else bind
+                     (idx m.entries (N.to_nat (N.sub i f)) site_term_index)
+                     (fun e -> Ok (SOk e.e_term)))
+
+(** val storage_first_index : mem -> n res **)
+
+let storage_first_index =
+  first_index
+
+(** val storage_last_index : mem -> n **)
+
+let storage_last_index =
+  last_index
+
+(** val storage_snapshot : mem -> n -> n -> (mem * snapshot sres) res **)
+
+let storage_snapshot m request_index _ =
+  if m.trig_snap
+  then Ok ((set_trig_snap m false), (SErr SnapshotTemporarilyUnavailable))
+  else bind (make_snapshot m) (fun s -> Ok (m, (SOk
+         (if N.ltb s.s_index request_index
+          then { s_index = request_index; s_term = s.s_term; s_cs = s.s_cs }
+          else s))))
+
+type op0 =
+| OSetHardState of hard_state
+| OSetCommit of n
+| OCommitTo of n
+| OSetConfState of conf_state
+| OApplySnapshot of snapshot
+| OCompact of n
+| OAppend of entry list
+| OCommitToConf of n * conf_state option
+| OTrigSnap
+| OTrigLog of bool
+| OTakeCtx
+| OInitConf of conf_state
+| QInitialState
+| QEntries of n * n * n option * gectx
+| QTerm of n
+| QFirstIndex
+| QLastIndex
+| QSnapshot of n * n
+| QHardState
+
+type ret =
+| RUnit
+| RNum of n
+| REntries of entry list
+| RSnap of snapshot
+| RState of hard_state * conf_state
+| RHard of hard_state
+| RCtx of gectx option
+
+(** val ok_unit : mem res -> (mem * ret sres) res **)
+
+let ok_unit r =
+  bind r (fun m -> Ok (m, (SOk RUnit)))
+
+(** val map_sres : ('a1 -> 'a2) -> 'a1 sres -> 'a2 sres **)
+
+let map_sres f = function
+| SOk a -> SOk (f a)
+| SErr e -> SErr e
+
+(** val step0 : mem -> op0 -> (mem * ret sres) res **)
+
+let step0 m = function
+| OSetHardState h -> Ok ((set_hardstate m h), (SOk RUnit))
+| OSetCommit c -> Ok ((set_commit m c), (SOk RUnit))
+| OCommitTo i -> ok_unit (commit_to m i)
+| OSetConfState c -> Ok ((set_conf_state m c), (SOk RUnit))
+| OApplySnapshot s ->
+  bind (apply_snapshot m s) (fun r -> Ok ((fst r),
+    (map_sres (fun _ -> RUnit) (snd r))))
+| OCompact i -> ok_unit (compact m i)
+| OAppend ents -> ok_unit (append m ents)
+| OCommitToConf (i, c) -> ok_unit (commit_to_and_set_conf_states m i c)
+| OTrigSnap -> Ok ((trigger_snap_unavailable m), (SOk RUnit))
+| OTrigLog v -> Ok ((trigger_log_unavailable m v), (SOk RUnit))
+| OTakeCtx ->
+  let r = take_get_entries_context m in Ok ((fst r), (SOk (RCtx (snd r))))
+| OInitConf c -> ok_unit (initialize_with_conf_state m c)
+| QInitialState ->
+  Ok (m, (SOk (RState ((fst (initial_state m)), (snd (initial_state m))))))
+| QEntries (lo, hi, mx, ctx) ->
+  bind (storage_entries m lo hi mx ctx) (fun r -> Ok ((fst r),
+    (map_sres (fun x -> REntries x) (snd r))))
+| QTerm i ->
+  bind (storage_term m i) (fun r -> Ok (m, (map_sres (fun x -> RNum x) r)))
+| QFirstIndex ->
+  bind (storage_first_index m) (fun f -> Ok (m, (SOk (RNum f))))
+| QLastIndex -> Ok (m, (SOk (RNum (storage_last_index m))))
+| QSnapshot (ri, to0) ->
+  bind (storage_snapshot m ri to0) (fun r -> Ok ((fst r),
+    (map_sres (fun x -> RSnap x) (snd r))))
+| QHardState -> Ok (m, (SOk (RHard (hard_state_of m))))
+
+(** val take_list : n list -> (n list * n list) option **)
+
+let take_list = function
+| [] -> None
+| n0 :: r ->
+  let k = N.to_nat n0 in
+  if Nat.ltb (length r) k then None else Some ((firstn k r), (skipn k r))
+
+(** val parse_cs : n list -> (conf_state * n list) option **)
+
+let parse_cs l =
+  match take_list l with
+  | Some p ->
+    let (v, l1) = p in
+    (match take_list l1 with
+     | Some p0 ->
+       let (le, l2) = p0 in
+       (match take_list l2 with
+        | Some p1 ->
+          let (vo, l3) = p1 in
+          (match take_list l3 with
+           | Some p2 ->
+             let (ln, l0) = p2 in
+             (match l0 with
+              | [] -> None
+              | b :: l4 ->
+                Some ({ cs_voters = v; cs_learners = le; cs_voters_outgoing =
+                  vo; cs_learners_next = ln; cs_auto_leave =
+                  (negb (N.eqb b N0)) }, l4))
+           | None -> None)
+        | None -> None)
+     | None -> None)
+  | None -> None
+
+(** val parse_vl : n list -> (conf_state * n list) option **)
+
+let parse_vl l =
+  match take_list l with
+  | Some p ->
+    let (v, l1) = p in
+    (match take_list l1 with
+     | Some p0 -> let (le, l2) = p0 in Some ((cs_from v le), l2)
+     | None -> None)
+  | None -> None
+
+(** val parse_entries : nat -> n list -> (entry list * n list) option **)
+
+let rec parse_entries k l =
+  match k with
+  | O -> Some ([], l)
+  | S k' ->
+    (match l with
+     | [] -> None
+     | ty :: l0 ->
+       (match l0 with
+        | [] -> None
+        | te :: l1 ->
+          (match l1 with
+           | [] -> None
+           | ix :: l2 ->
+             (match l2 with
+              | [] -> None
+              | dl :: l3 ->
+                (match l3 with
+                 | [] -> None
+                 | fill :: l4 ->
+                   (match l4 with
+                    | [] -> None
+                    | cl :: l5 ->
+                      (match l5 with
+                       | [] -> None
+                       | sy :: r ->
+                         (match parse_entries k' r with
+                          | Some p ->
+                            let (es, r') = p in
+                            Some (({ e_term = te; e_index = ix; e_type = ty;
+                            e_data = (repeat fill (N.to_nat dl)); e_context =
+                            (repeat fill (N.to_nat cl)); e_sync_log =
+                            (negb (N.eqb sy N0)) } :: es), r')
+                          | None -> None))))))))
+
+type cmd =
+| COp of op0
+| CDump
+
+(** val parse_cmd : n list -> (cmd * n list) option **)
+
+let parse_cmd = function
+| [] -> None
+| n0 :: r ->
+  (match n0 with
+   | N0 ->
+     (match r with
+      | [] -> None
+      | t :: l0 ->
+        (match l0 with
+         | [] -> None
+         | v :: l1 ->
+           (match l1 with
+            | [] -> None
+            | c :: r0 ->
+              Some ((COp (OSetHardState { hs_term = t; hs_vote = v;
+                hs_commit = c })), r0))))
+   | Npos p ->
+     (match p with
+      | XI p0 ->
+        (match p0 with
+         | XI p1 ->
+           (match p1 with
+            | XI p2 ->
+              (match p2 with
+               | XO p3 ->
+                 (match p3 with
+                  | XH -> Some ((COp QFirstIndex), r)
+                  | _ -> None)
+               | _ -> None)
+            | XO p2 ->
+              (match p2 with
+               | XH ->
+                 (match parse_vl r with
+                  | Some p3 ->
+                    let (c, r') = p3 in Some ((COp (OInitConf c)), r')
+                  | None -> None)
+               | _ -> None)
+            | XH ->
+              (match r with
+               | [] -> None
+               | i :: l0 ->
+                 (match l0 with
+                  | [] -> None
+                  | n1 :: r0 ->
+                    (match n1 with
+                     | N0 -> Some ((COp (OCommitToConf (i, None))), r0)
+                     | Npos _ ->
+                       (match parse_cs r0 with
+                        | Some p2 ->
+                          let (c, r') = p2 in
+                          Some ((COp (OCommitToConf (i, (Some c)))), r')
+                        | None -> None)))))
+         | XO p1 ->
+           (match p1 with
+            | XI p2 ->
+              (match p2 with
+               | XO p3 ->
+                 (match p3 with
+                  | XH ->
+                    (match r with
+                     | [] -> None
+                     | lo :: l0 ->
+                       (match l0 with
+                        | [] -> None
+                        | hi :: l1 ->
+                          (match l1 with
+                           | [] -> None
+                           | n1 :: l2 ->
+                             (match n1 with
+                              | N0 ->
+                                (match l2 with
+                                 | [] -> None
+                                 | mx :: r0 ->
+                                   Some ((COp (QEntries (lo, hi, None,
+                                     (CtxEmpty (negb (N.eqb mx N0)))))), r0))
+                              | Npos _ ->
+                                (match l2 with
+                                 | [] -> None
+                                 | mx :: l3 ->
+                                   (match l3 with
+                                    | [] -> None
+                                    | c :: r0 ->
+                                      Some ((COp (QEntries (lo, hi, (Some
+                                        mx), (CtxEmpty
+                                        (negb (N.eqb c N0)))))), r0)))))))
+                  | _ -> None)
+               | _ -> None)
+            | XO p2 ->
+              (match p2 with
+               | XI p3 ->
+                 (match p3 with
+                  | XH ->
+                    (match r with
+                     | [] -> None
+                     | q :: l0 ->
+                       (match l0 with
+                        | [] -> None
+                        | t :: r0 -> Some ((COp (QSnapshot (q, t))), r0)))
+                  | _ -> None)
+               | XO _ -> None
+               | XH ->
+                 (match r with
+                  | [] -> None
+                  | b :: r0 -> Some ((COp (OTrigLog (negb (N.eqb b N0)))), r0)))
+            | XH ->
+              (match r with
+               | [] -> None
+               | i :: r0 -> Some ((COp (OCompact i)), r0)))
+         | XH ->
+           (match parse_cs r with
+            | Some p1 ->
+              let (c, r') = p1 in Some ((COp (OSetConfState c)), r')
+            | None -> None))
+      | XO p0 ->
+        (match p0 with
+         | XI p1 ->
+           (match p1 with
+            | XI p2 ->
+              (match p2 with
+               | XI p3 -> (match p3 with
+                           | XH -> Some (CDump, r)
+                           | _ -> None)
+               | XO p3 ->
+                 (match p3 with
+                  | XH ->
+                    (match r with
+                     | [] -> None
+                     | i :: r0 -> Some ((COp (QTerm i)), r0))
+                  | _ -> None)
+               | XH -> None)
+            | XO p2 ->
+              (match p2 with
+               | XI p3 ->
+                 (match p3 with
+                  | XH -> Some ((COp QHardState), r)
+                  | _ -> None)
+               | XO _ -> None
+               | XH -> Some ((COp OTakeCtx), r))
+            | XH ->
+              (match r with
+               | [] -> None
+               | n1 :: r0 ->
+                 (match parse_entries (N.to_nat n1) r0 with
+                  | Some p2 ->
+                    let (es, r') = p2 in Some ((COp (OAppend es)), r')
+                  | None -> None)))
+         | XO p1 ->
+           (match p1 with
+            | XI p2 ->
+              (match p2 with
+               | XO p3 ->
+                 (match p3 with
+                  | XH -> Some ((COp QInitialState), r)
+                  | _ -> None)
+               | _ -> None)
+            | XO p2 ->
+              (match p2 with
+               | XI p3 ->
+                 (match p3 with
+                  | XH -> Some ((COp QLastIndex), r)
+                  | _ -> None)
+               | XO _ -> None
+               | XH -> Some ((COp OTrigSnap), r))
+            | XH ->
+              (match r with
+               | [] -> None
+               | i :: l0 ->
+                 (match l0 with
+                  | [] -> None
+                  | t :: r0 ->
+                    (match parse_cs r0 with
+                     | Some p2 ->
+                       let (c, r') = p2 in
+                       Some ((COp (OApplySnapshot { s_index = i; s_term = t;
+                       s_cs = c })), r')
+                     | None -> None))))
+         | XH ->
+           (match r with
+            | [] -> None
+            | i :: r0 -> Some ((COp (OCommitTo i)), r0)))
+      | XH ->
+        (match r with
+         | [] -> None
+         | c :: r0 -> Some ((COp (OSetCommit c)), r0))))
+
+(** val enc_hs : hard_state -> n list **)
+
+let enc_hs h =
+  h.hs_term :: (h.hs_vote :: (h.hs_commit :: []))
+
+(** val enc_cs : conf_state -> n list **)
+
+let enc_cs c =
+  app (enc_list c.cs_voters)
+    (app (enc_list c.cs_learners)
+      (app (enc_list c.cs_voters_outgoing)
+        (app (enc_list c.cs_learners_next) ((enc_bool c.cs_auto_leave) :: []))))
+
+(** val sum_bytes : n list -> n **)
+
+let sum_bytes l =
+  fold_right N.add N0 l
+
+(** val enc_entry : entry -> n list **)
+
+let enc_entry e =
+  e.e_type :: (e.e_term :: (e.e_index :: ((N.of_nat (length e.e_data)) :: (
+    (sum_bytes e.e_data) :: ((N.of_nat (length e.e_context)) :: ((enc_bool
+                                                                   e.e_sync_log) :: []))))))
+
+(** val enc_entries : entry list -> n list **)
+
+let enc_entries l =
+  (N.of_nat (length l)) :: (flat_map enc_entry l)
+
+(** val enc_snap : snapshot -> n list **)
+
+let enc_snap s =
+  app (s.s_index :: (s.s_term :: [])) (enc_cs s.s_cs)
+
+(** val enc_ctx : gectx option -> n list **)
+
+let enc_ctx = function
+| Some g ->
+  (match g with
+   | CtxSendAppend (to0, t, a) ->
+     (Npos (XO XH)) :: (to0 :: (t :: ((enc_bool a) :: [])))
+   | CtxGenReady -> (Npos (XI XH)) :: []
+   | CtxTransferLeader -> (Npos (XO (XO XH))) :: []
+   | CtxCommitByVote -> (Npos (XI (XO XH))) :: []
+   | CtxEmpty b -> (Npos XH) :: ((enc_bool b) :: []))
+| None -> N0 :: []
+
+(** val enc_ret : ret -> n list **)
+
+let enc_ret = function
+| RUnit -> []
+| RNum n0 -> n0 :: []
+| REntries l -> enc_entries l
+| RSnap s -> enc_snap s
+| RState (h, c) -> app (enc_hs h) (enc_cs c)
+| RHard h -> enc_hs h
+| RCtx c -> enc_ctx c
+
+(** val enc_sres : ret sres -> n list **)
+
+let enc_sres = function
+| SOk v -> N0 :: (enc_ret v)
+| SErr e -> (Npos XH) :: ((serr_code e) :: [])
+
+(** val pANIC : n **)
+
+let pANIC =
+  Npos (XI (XI (XI (XI (XI (XI (XO (XO (XO (XI (XO (XO (XO (XO (XI (XO (XI
+    (XI (XI XH)))))))))))))))))))
+
+(** val dump0 : mem -> n list * bool **)
+
+let dump0 m =
+  let pre = app (enc_hs m.hs) (enc_cs m.cs) in
+  (match first_index m with
+   | Ok f ->
+     let l = last_index m in
+     let pre2 = app pre (f :: (l :: [])) in
+     if N.leb f l
+     then (match storage_entries m f (N.add l (Npos XH)) (Some nO_LIMIT)
+                   (CtxEmpty false) with
+           | Ok a ->
+             let (_, s) = a in
+             (match s with
+              | SOk es ->
+                ((app pre2
+                   (app (enc_entries es)
+                     (m.snap_index :: (m.snap_term :: [])))), true)
+              | SErr e ->
+                ((app pre2 ((Npos XH) :: ((serr_code e) :: []))), false))
+           | Panic s -> ((app pre2 (pANIC :: (s :: []))), false))
+     else ((app pre2 (app (N0 :: []) (m.snap_index :: (m.snap_term :: [])))),
+            true)
+   | Panic s -> ((app pre (pANIC :: (s :: []))), false))
+
+(** val run_cmds : nat -> mem -> n list -> n list **)
+
+let rec run_cmds fuel m l =
+  match fuel with
+  | O -> []
+  | S fuel' ->
+    (match l with
+     | [] -> []
+     | _ :: _ ->
+       (match parse_cmd l with
+        | Some p ->
+          let (c, r) = p in
+          (match c with
+           | COp o ->
+             (match step0 m o with
+              | Ok a ->
+                let (m', res0) = a in
+                app (enc_sres res0) (run_cmds fuel' m' r)
+              | Panic s -> pANIC :: (s :: []))
+           | CDump ->
+             let (out, cont) = dump0 m in
+             if cont then app out (run_cmds fuel' m r) else out)
+        | None ->
+          (Npos (XO (XO (XO (XI (XI (XI (XO (XO (XO (XO (XO (XO (XI (XO (XO
+            (XI (XI (XO (XI XH)))))))))))))))))))) :: []))
+
+(** val run_memstorage : n list -> n list **)
+
+let run_memstorage = function
+| [] ->
+  (Npos (XO (XO (XO (XI (XI (XI (XO (XO (XO (XO (XO (XO (XI (XO (XO (XI (XI
+    (XO (XI XH)))))))))))))))))))) :: []
+| n0 :: r ->
+  (match n0 with
+   | N0 -> run_cmds (S (length r)) new1 r
+   | Npos p ->
+     (match p with
+      | XH ->
+        (match parse_vl r with
+         | Some p0 ->
+           let (c, r') = p0 in
+           (match new_with_conf_state c with
+            | Ok m -> run_cmds (S (length r')) m r'
+            | Panic s -> pANIC :: (s :: []))
+         | None ->
+           (Npos (XO (XO (XO (XI (XI (XI (XO (XO (XO (XO (XO (XO (XI (XO (XO
+             (XI (XI (XO (XI XH)))))))))))))))))))) :: [])
+      | _ ->
+        (Npos (XO (XO (XO (XI (XI (XI (XO (XO (XO (XO (XO (XO (XI (XO (XO (XI
+          (XI (XO (XI XH)))))))))))))))))))) :: []))
